@@ -90,16 +90,20 @@ func c01run(st *Store, parent *modelkv.Store, k int) {
 		// nothing reaches the parent before Write
 		c01equalStores(parent, base, "parent-untouched")
 	}
-	// final full scans
-	c01scan(st, model, nil, nil, false, "final")
-	c01scan(st, model, nil, nil, true, "rfinal")
+	// final scans: one over an arbitrary range (a range bound equal to a touched key matters), one
+	// full scan in the other direction
+	rev := v.Choice(2) == 1
+	c01scan(st, model, c01bound(), c01bound(), rev, "final")
+	if v.Tier() > 0 {
+		c01scan(st, model, nil, nil, !rev, "final-other-direction")
+	}
 }
 
 // VerifC01: cachekv.Store over a model parent is an exact overlay.
 func VerifC01() {
-	nparent, k := 1, 3
+	nparent, k := 1, 2
 	if v.Tier() > 0 {
-		nparent, k = 2, 4
+		nparent, k = 2, 3
 	}
 	parent := modelkv.New()
 	for i := 0; i < nparent; i++ {
@@ -164,4 +168,38 @@ func VerifC01nested() {
 	c01equalStores(parent, before, "parent-untouched-before-outer-write")
 	outer.Write()
 	c01equalStores(parent, model, "parent-after-outer-write")
+}
+
+
+// VerifC01redirty: the sorted-cache maintenance path — a key is written, moved into the sorted
+// cache by an iteration, written or deleted again (any key, possibly the same), then iterated with
+// arbitrary bounds in either direction, optionally after a Write. All keys, values and bounds are
+// symbolic; only the shape of the history is fixed.
+func VerifC01redirty() {
+	parent := modelkv.New()
+	if v.Choice(2) == 1 {
+		parent.SetRaw(v.Bytes(1), v.Bytes(1))
+	}
+	st := NewStore(parent)
+	model := modelkv.New()
+	for _, kv := range parent.Snapshot() {
+		model.SetRaw(kv.K, kv.V)
+	}
+	k1, v1 := v.Bytes(1), v.Bytes(1)
+	_ = st.Set(k1, v1)
+	model.SetRaw(k1, v1)
+	c01scan(st, model, c01bound(), c01bound(), v.Choice(2) == 1, "first-iter")
+	k2 := v.Bytes(1)
+	if v.Choice(2) == 0 {
+		v2 := v.Bytes(1)
+		_ = st.Set(k2, v2)
+		model.SetRaw(k2, v2)
+	} else {
+		_ = st.Delete(k2)
+		model.DeleteRaw(k2)
+	}
+	c01scan(st, model, c01bound(), c01bound(), v.Choice(2) == 1, "second-iter")
+	st.Write()
+	c01equalStores(parent, model, "write")
+	c01scan(st, model, nil, nil, false, "after-write")
 }
